@@ -220,33 +220,14 @@ func init() {
 			e.note("unmodelled", "MatchExact on an untraceable index in "+c.fr.fn.Name())
 			return c.fr.closureEffectsHavoc(c)
 		}
-		e.declIter(g.ksort)
-		m := mangle(g.ksort)
-		it := e.freshVal(c.st, "iter", tt.At(0).Type())
-		id := e.vc.define("itid", "Int", e.iterID(it))
-		// a new iterator: its identity is distinct from every earlier one
-		ref := e.alloc(c.st)
-		e.assumeIn(c.st, eq(id, ref))
-		e.setHeap(c.st, itPosHeap, "(Array Int Int)", app("store", e.heap(c.st, itPosHeap, "(Array Int Int)"), id, "0"))
-		d0 := e.heap(c.st, g.name+"_d", e.heapSorts[g.name+"_d"])
 		v0 := e.heap(c.st, g.name+"_v", e.heapSorts[g.name+"_v"])
 		refKey := e.keyTerm(c.st, c.args[2])
-		key := func(j string) string { return app("itkey_"+m, id, j) }
 		ft := e.indexFnTerm(c, sp, field, g, "kq", app("select", v0, "kq"))
-		match := func(k string) string {
-			if ft == "" {
-				return "true"
-			}
-			return eq(replaceToken(ft, "kq", k), refKey)
-		}
-		// (a) every key of the sequence is stored and matches the reference key
-		e.assumeIn(c.st, fmt.Sprintf("(forall ((j Int)) (! (=> (and (<= 0 j) (< j (itlen %s))) (and (select %s %s) %s)) :pattern (%s)))",
-			id, d0, key("j"), match(key("j")), key("j")))
-		// (c) every stored key that matches is in the sequence
+		var match func(k string) string
 		if ft != "" {
-			e.assumeIn(c.st, fmt.Sprintf("(forall ((kq %s)) (! (=> (and (select %s kq) %s) (and (<= 0 (itinv_%s %s kq)) (< (itinv_%s %s kq) (itlen %s)) (= %s kq))) :pattern ((select %s kq))))",
-				g.ksort, d0, match("kq"), m, id, m, id, id, key(app("itinv_"+m, id, "kq")), d0))
+			match = func(k string) string { return eq(replaceToken(ft, "kq", k), refKey) }
 		}
+		it, _ := e.newStoreIter(c, g, tt.At(0).Type(), match)
 		return Val{T: c.rt, Tup: []Val{it, {S: "iface_nil", T: tt.At(1).Type()}}}
 	}
 	libMods["(*"+idxPkg+".Multi[ReferenceKey, PrimaryKey, Value]).MatchExact"] = func(e *Engine, cc *ssa.CallCommon) []string { return []string{itPosHeap} }
@@ -295,35 +276,11 @@ func init() {
 	libSpecs[idxPkg+".CollectValues"] = func(c *callCtx) Val {
 		e := c.e()
 		g := e.ghostOfValue(c.common.Args[1])
-		tt := c.rt.(*types.Tuple)
 		if g == nil || g.kind != "map" {
 			e.note("unmodelled", "CollectValues on an untraceable store in "+c.fr.fn.Name())
 			return c.fr.closureEffectsHavoc(c)
 		}
-		id := e.vc.define("itid", "Int", e.iterID(c.args[2]))
-		e.declIter(g.ksort)
-		m := mangle(g.ksort)
-		pos := e.vc.define("itpos", "Int", e.iterPos(c.st, id))
-		e.assumeIn(c.st, and(app("<=", "0", pos), app("<=", pos, app("itlen", id))))
-		d := e.heap(c.st, g.name+"_d", e.heapSorts[g.name+"_d"])
-		v := e.heap(c.st, g.name+"_v", e.heapSorts[g.name+"_v"])
-		key := func(j string) string { return app("itkey_"+m, id, j) }
-		okc := e.vc.fresh("collect_ok", "Bool")
-		e.assumeIn(c.st, implies(okc, fmt.Sprintf("(forall ((j Int)) (! (=> (and (<= %s j) (< j (itlen %s))) (select %s %s)) :pattern (%s)))", pos, id, d, key("j"), key("j"))))
-		e.assumeIn(c.st, implies(not(okc), fmt.Sprintf("(exists ((j Int)) (and (<= %s j) (< j (itlen %s)) (not (select %s %s))))", pos, id, d, key("j"))))
-		vals := e.freshVal(c.st, "collected", tt.At(0).Type())
-		sl := types.Unalias(tt.At(0).Type()).Underlying().(*types.Slice)
-		hn, hs := e.vc.arrHeapName(sl.Elem())
-		arr := app("select", e.heap(c.st, hn, hs), app("sptr", vals.S))
-		e.assumeIn(c.st, implies(okc, and(eq(app("slen", vals.S), app("-", app("itlen", id), pos)), eq(app("soff", vals.S), "0"))))
-		e.assumeIn(c.st, implies(okc, fmt.Sprintf("(forall ((j Int)) (! (=> (and (<= 0 j) (< j (- (itlen %s) %s))) (= (select %s (idx 0 j)) (select %s %s))) :pattern ((select %s (idx 0 j)))))",
-			id, pos, arr, v, key(app("+", pos, "j")), arr)))
-		// element invariants of the collected values
-		e.assumeIn(c.st, implies(okc, fmt.Sprintf("(forall ((j Int)) (! (=> (and (<= 0 j) (< j (- (itlen %s) %s))) %s) :pattern ((select %s (idx 0 j)))))",
-			id, pos, and(e.typeInv("(select "+arr+" (idx 0 j))", sl.Elem()), e.allocInv(c.st, "(select "+arr+" (idx 0 j))", sl.Elem())), arr)))
-		e.setHeap(c.st, itPosHeap, "(Array Int Int)", app("store", e.heap(c.st, itPosHeap, "(Array Int Int)"), id, app("itlen", id)))
-		er := c.freshErr("collecterr")
-		return Val{T: c.rt, Tup: []Val{vals, {S: ite(okc, "iface_nil", er), T: tt.At(1).Type()}}}
+		return e.collectValues(c, g, c.args[2])
 	}
 	libMods[idxPkg+".CollectValues"] = func(e *Engine, cc *ssa.CallCommon) []string { return []string{itPosHeap} }
 
@@ -347,4 +304,131 @@ type iterInfo struct {
 	ksort string
 	kt    types.Type
 	g     *ghostRef
+}
+
+// newStoreIter creates an iterator over the keys of store g that satisfy match (nil: all keys): a fresh identity,
+// position 0, and the facts tying its key sequence to the store content at creation.
+func (e *Engine) newStoreIter(c *callCtx, g *ghostRef, itT types.Type, match func(k string) string) (Val, string) {
+	e.declIter(g.ksort)
+	m := mangle(g.ksort)
+	it := e.freshVal(c.st, "iter", itT)
+	id := e.vc.define("itid", "Int", e.iterID(it))
+	// a new iterator: its identity is distinct from every earlier one
+	ref := e.alloc(c.st)
+	e.assumeIn(c.st, eq(id, ref))
+	e.setHeap(c.st, itPosHeap, "(Array Int Int)", app("store", e.heap(c.st, itPosHeap, "(Array Int Int)"), id, "0"))
+	d0 := e.heap(c.st, g.name+"_d", e.heapSorts[g.name+"_d"])
+	key := func(j string) string { return app("itkey_"+m, id, j) }
+	mt := func(k string) string {
+		if match == nil {
+			return "true"
+		}
+		return match(k)
+	}
+	// (a) every key of the sequence is stored and matches
+	e.assumeIn(c.st, fmt.Sprintf("(forall ((j Int)) (! (=> (and (<= 0 j) (< j (itlen %s))) (and (select %s %s) %s)) :pattern (%s)))",
+		id, d0, key("j"), mt(key("j")), key("j")))
+	// (c) every stored key that matches is in the sequence
+	e.assumeIn(c.st, fmt.Sprintf("(forall ((kq %s)) (! (=> (and (select %s kq) %s) (and (<= 0 (itinv_%s %s kq)) (< (itinv_%s %s kq) (itlen %s)) (= %s kq))) :pattern ((select %s kq))))",
+		g.ksort, d0, mt("kq"), m, id, m, id, id, key(app("itinv_"+m, id, "kq")), d0))
+	if match == nil {
+		// all keys: the length is the number of stored keys
+		e.assumeIn(c.st, eq(app("itlen", id), e.card(g, d0)))
+	}
+	return it, id
+}
+
+// card: number of keys of a store domain (ghost cardinality; facts are added by Set / Remove / Clear).
+func (e *Engine) card(g *ghostRef, d string) string {
+	fn := "card_" + mangle(g.ksort)
+	e.vc.declFun(fn, []string{fmt.Sprintf("(Array %s Bool)", g.ksort)}, "Int")
+	if !e.vc.declared[fn] {
+		e.vc.declared[fn] = true
+		e.vc.declSort(fmt.Sprintf("(assert (forall ((d (Array %s Bool))) (! (>= (%s d) 0) :pattern ((%s d)))))", g.ksort, fn, fn))
+	}
+	return app(fn, d)
+}
+
+// collectValues: the stored values of the remaining keys of an iterator, in sequence order (Values / CollectValues).
+func (e *Engine) collectValues(c *callCtx, g *ghostRef, itv Val) Val {
+	tt := c.rt.(*types.Tuple)
+	id := e.vc.define("itid", "Int", e.iterID(itv))
+	e.declIter(g.ksort)
+	m := mangle(g.ksort)
+	pos := e.vc.define("itpos", "Int", e.iterPos(c.st, id))
+	e.assumeIn(c.st, and(app("<=", "0", pos), app("<=", pos, app("itlen", id))))
+	d := e.heap(c.st, g.name+"_d", e.heapSorts[g.name+"_d"])
+	v := e.heap(c.st, g.name+"_v", e.heapSorts[g.name+"_v"])
+	key := func(j string) string { return app("itkey_"+m, id, j) }
+	okc := e.vc.fresh("collect_ok", "Bool")
+	e.assumeIn(c.st, implies(okc, fmt.Sprintf("(forall ((j Int)) (! (=> (and (<= %s j) (< j (itlen %s))) (select %s %s)) :pattern (%s)))", pos, id, d, key("j"), key("j"))))
+	e.assumeIn(c.st, implies(not(okc), fmt.Sprintf("(exists ((j Int)) (and (<= %s j) (< j (itlen %s)) (not (select %s %s))))", pos, id, d, key("j"))))
+	vals := e.freshVal(c.st, "collected", tt.At(0).Type())
+	sl := types.Unalias(tt.At(0).Type()).Underlying().(*types.Slice)
+	hn, hs := e.vc.arrHeapName(sl.Elem())
+	arr := app("select", e.heap(c.st, hn, hs), app("sptr", vals.S))
+	e.assumeIn(c.st, implies(okc, and(eq(app("slen", vals.S), app("-", app("itlen", id), pos)), eq(app("soff", vals.S), "0"))))
+	e.assumeIn(c.st, implies(okc, fmt.Sprintf("(forall ((j Int)) (! (=> (and (<= 0 j) (< j (- (itlen %s) %s))) (= (select %s (idx 0 j)) (select %s %s))) :pattern ((select %s (idx 0 j)))))",
+		id, pos, arr, v, key(app("+", pos, "j")), arr)))
+	// element invariants of the collected values
+	e.assumeIn(c.st, implies(okc, fmt.Sprintf("(forall ((j Int)) (! (=> (and (<= 0 j) (< j (- (itlen %s) %s))) %s) :pattern ((select %s (idx 0 j)))))",
+		id, pos, and(e.typeInv("(select "+arr+" (idx 0 j))", sl.Elem()), e.allocInv(c.st, "(select "+arr+" (idx 0 j))", sl.Elem())), arr)))
+	e.setHeap(c.st, itPosHeap, "(Array Int Int)", app("store", e.heap(c.st, itPosHeap, "(Array Int Int)"), id, app("itlen", id)))
+	er := c.freshErr("collecterr")
+	return Val{T: c.rt, Tup: []Val{vals, {S: ite(okc, "iface_nil", er), T: tt.At(1).Type()}}}
+}
+
+func init() {
+	// Map.Iterate(ctx, nil) + Iterator.Values(): all stored values in key order (order unspecified here)
+	iterate := func(c *callCtx) Val {
+		e := c.e()
+		g := e.ghostOfValue(c.common.Args[0])
+		tt := c.rt.(*types.Tuple)
+		cst, isNil := stripIface(c.common.Args[2]).(*ssa.Const)
+		if g == nil || g.kind != "map" || !isNil || cst.Value != nil {
+			e.note("unmodelled", "Iterate with a range or on an untraceable store in "+c.fr.fn.Name())
+			return c.fr.closureEffectsHavoc(c)
+		}
+		it, _ := e.newStoreIter(c, g, tt.At(0).Type(), nil)
+		if c.fr.iterStore == nil {
+			c.fr.iterStore = map[ssa.Value]*ghostRef{}
+		}
+		if iv, ok := c.instr.(ssa.Value); ok {
+			c.fr.iterStore[iv] = g
+		}
+		return Val{T: c.rt, Tup: []Val{it, {S: "iface_nil", T: tt.At(1).Type()}}}
+	}
+	libSpecs["("+collPkg+".Map[K, V]).Iterate"] = iterate
+	libMods["("+collPkg+".Map[K, V]).Iterate"] = func(e *Engine, cc *ssa.CallCommon) []string { return []string{itPosHeap} }
+	libSpecs["("+collPkg+".Iterator[K, V]).Values"] = func(c *callCtx) Val {
+		e := c.e()
+		// the iterator must come from an Iterate call of this function: v = extract(call, 0)
+		var g *ghostRef
+		if ex, ok := c.common.Args[0].(*ssa.Extract); ok && c.fr.iterStore != nil {
+			g = c.fr.iterStore[ex.Tuple]
+		}
+		if g == nil {
+			e.note("unmodelled", "Values on an iterator of unknown origin in "+c.fr.fn.Name())
+			return c.fr.closureEffectsHavoc(c)
+		}
+		return e.collectValues(c, g, c.args[0])
+	}
+	libMods["("+collPkg+".Iterator[K, V]).Values"] = func(e *Engine, cc *ssa.CallCommon) []string { return []string{itPosHeap} }
+	// Map.Clear(ctx, nil): removes every key
+	libSpecs["("+collPkg+".Map[K, V]).Clear"] = func(c *callCtx) Val {
+		e := c.e()
+		g := e.ghostOfValue(c.common.Args[0])
+		cst, isNil := stripIface(c.common.Args[2]).(*ssa.Const)
+		if g == nil || g.kind != "map" || !isNil || cst.Value != nil {
+			e.note("unmodelled", "Clear with a range or on an untraceable store in "+c.fr.fn.Name())
+			return c.fr.havocCall(c, true)
+		}
+		dn := g.name + "_d"
+		nd := e.vc.fresh(dn+"_cleared", e.heapSorts[dn])
+		e.vc.assume(fmt.Sprintf("(forall ((k %s)) (! (not (select %s k)) :pattern ((select %s k))))", g.ksort, nd, nd))
+		e.vc.assume(eq(e.card(g, nd), "0"))
+		e.setHeap(c.st, dn, e.heapSorts[dn], nd)
+		return c.ret("iface_nil")
+	}
+	libMods["("+collPkg+".Map[K, V]).Clear"] = collMods
 }
